@@ -28,9 +28,9 @@ L = {
          'Correspondence: model parser = PLY automaton on all short token strings + random texts + cached sessions.', 'findings D7, D8.'),
  'C07': ('Reference semantics: Sq/Denote.lean defines evalOp compositionally (independent of the machine); machine_implements_semantics / '
          'eval_call_implements_semantics (SqLemmas/DenoteSound.lean) prove the abstract machine computes exactly that outcome and world for every node, '
-         'function application and whole eval call; semantics_is_fuel_independent. Plus characteristics theorems, ops_equal_node_evaluations, frame lemma, '
+         'function application and whole eval call; semantics_covers_machine / semantics_iff_machine (DenoteComplete: the converse, by strong induction on machine steps) — semantics and machine define the same relation; fuel monotone and irrelevant. Plus characteristics theorems, ops_equal_node_evaluations, frame lemma, '
          'big-step theorems. Decision: correspondence of type-directed programs with the model reading the source text itself; the driver cross-checks '
-         'evalOp against the machine on every EVAL line (denote counters).', 'translation-validation style; completeness of evalOp is measured.'),
+         'evalOp against the machine on every EVAL line (denote counters).', 'translation-validation style.'),
  'C08': ('Theorems: literal_exact, add/sub/mul exact-then-rounded-once, fix_rounds_to_nearest (nearest, ties to even, whole domain), '
          'division_is_correctly_rounded (sticky digit proved sufficient), cmp_is_exact_order; against Q (RatSpec): arithmetic_is_correctly_rounded '
          '(|r - (a op b)| <= 1/2 ulp(r) for + - * /, all operands), comparisons_are_rational_order, quotient_identity. Correspondence vs CPython decimal; Fraction oracle monitor.',
